@@ -561,6 +561,7 @@ def run(run):
     width.no_narrow(run, fx, 'INDEX', [('Slot::index', 'graphite2::Slot::index'), 'graphite2::Segment::m_numGlyphs'])
     nomutpos(run, vm)
     gidclamp(run, fx)
+    mirrorguard(run, fx)
     try:
         classbound(run, fx)
     except AnalysisBroken as ex:
@@ -618,6 +619,26 @@ def _chain_of(O, seg, limit):
     if (last.rec if isinstance(last, O.Ptr) else None) is not prev:
         return None, 'm_last is %s, the chain ends at %s' % ('null' if last.rec is None else '#%d' % last.rec['#'], 'nothing' if prev is None else '#%d' % prev['#'])
     return out, None
+
+
+def mirrorguard(run, fx):
+    """GIDCLAMP: Segment::doMirror(a) replaces a glyph by the value of its glyph attribute a; 0 means the font has no mirroring
+    attribute, and attribute 0 is then some unrelated attribute whose value is not a glyph id.  Every call of doMirror is dominated by
+    a non-zero test of the attribute number it passes (sibling agreement: Silf::runGraphite tests m_aMirror, Face::runGraphite must
+    test aMirror())."""
+    sites = callers_of(fx, 'graphite2::Segment::doMirror')
+    if len(sites) < 2:
+        run.broken('GIDCLAMP', 'doMirror only with a mirroring attribute', 'expected the two call sites (Face::runGraphite, Silf::runGraphite), found %d' % len(sites))
+        return
+    for fn, e in sites:
+        a = fn.render(fn.strip_all_casts(fn.N(e['args'][0])))
+        inst = 'doMirror only with a mirroring attribute in %s' % fn.q.split('graphite2::')[-1]
+        ok = [f for f in dom.facts_at(fn, e['i']) if f[0] == a and f[1] == '!=' and f[2] == '0']
+        if ok:
+            run.held('GIDCLAMP', inst, fn.loc(e), 'dominated by %s != 0' % a)
+        else:
+            run.violated('GIDCLAMP', inst, fn.loc(e), '%s calls doMirror(%s) without testing that the font HAS a mirroring attribute (%s != 0): for a font without one, glyph attribute 0 of every '
+                         'glyph is taken as the id of its mirrored glyph -- any value, also beyond the number of glyphs' % (fn.q, a, a))
 
 
 def handlers_exec(run, vm, maxn=3):
